@@ -70,6 +70,16 @@ HAND.append({"type": "record", "name": "Contact", "fields": [
     {"name": "kind", "type": {"type": "enum", "name": "CK", "symbols": ["A", "B"], "aliases": ["OldCK"]}}]})
 
 
+# fixed types of size 0 and 1 (a size of 0 is a size), and named types reached by relative name inside a namespace
+HAND.append({"type": "record", "name": "Sizes", "fields": [
+    {"name": "z", "type": {"type": "fixed", "name": "Z0", "size": 0}}, {"name": "o", "type": {"type": "fixed", "name": "O1", "size": 1}},
+    {"name": "zs", "type": {"type": "array", "items": "Z0"}}, {"name": "u", "type": ["null", "O1", "Z0"]}]})
+HAND.append({"type": "record", "name": "Shape", "namespace": "geo", "fields": [
+    {"name": "p", "type": {"type": "record", "name": "Point", "fields": [{"name": "x", "type": "int"}, {"name": "y", "type": "int"}]}},
+    {"name": "ps", "type": {"type": "array", "items": "Point"}}, {"name": "m", "type": {"type": "map", "values": "geo.Point"}},
+    {"name": "k", "type": {"type": "enum", "name": "Kind", "symbols": ["A", "B"]}}, {"name": "k2", "type": ["null", "Kind"]}]})
+
+
 def has_namespace(s):
     t = json.dumps(s)
     return '"namespace"' in t or any("." in n for n in _names(s))
@@ -241,6 +251,8 @@ def steps(W, first=True):
                         emit("enum-remove-symbol-with-default", path, dict(node, symbols=rest, default=rest[-1]))
             if t == "fixed":
                 emit("fixed-size", path, dict(node, size=node["size"] + 1))
+                if node["size"] >= 1:
+                    emit("fixed-size-to-zero", path, dict(node, size=0))
             if t in ("array", "map", "record", "enum", "fixed") and path:
                 emit("wrap-null-first", path, ["null", copy.deepcopy(node)])
                 emit("wrap-null-last", path, [copy.deepcopy(node), "null"])
@@ -309,7 +321,7 @@ def read_both(fa, W, R, payload, value_datum):
     from fastavro._read_common import SchemaResolutionError
 
     results = []
-    for how in ("schemaless", "schemaless-parsed", "container", "container-parsed", "schemaless-forward-only"):
+    for how in ("schemaless", "schemaless-parsed", "container", "container-parsed", "schemaless-forward-only", "container-blocks"):
         try:
             if how == "schemaless":
                 got = fa.schemaless_reader(io.BytesIO(payload), copy.deepcopy(W), copy.deepcopy(R))
@@ -317,6 +329,12 @@ def read_both(fa, W, R, payload, value_datum):
                 got = fa.schemaless_reader(ForwardOnly(payload), copy.deepcopy(W), copy.deepcopy(R))
             elif how == "schemaless-parsed":
                 got = fa.schemaless_reader(io.BytesIO(payload), fa.parse_schema(copy.deepcopy(W)), fa.parse_schema(copy.deepcopy(R)))
+            elif how == "container-blocks":
+                fo = io.BytesIO()
+                fa.writer(fo, copy.deepcopy(W), [copy.deepcopy(value_datum), copy.deepcopy(value_datum)], sync_marker=b"R" * 16, sync_interval=1)
+                fo.seek(0)
+                got = [x for blk in fa.block_reader(fo, reader_schema=copy.deepcopy(R)) for x in blk]
+                got = got[0] if (len(got) == 2 and same(got[0], got[1])) else ("<records>", got)
             elif how == "container-parsed":
                 fo = io.BytesIO()
                 fa.writer(fo, fa.parse_schema(copy.deepcopy(W)), [copy.deepcopy(value_datum)], sync_marker=b"R" * 16)
